@@ -90,6 +90,8 @@ def gen_frame(rng, t, ncols: int, kind: str) -> dict:
         name = f"c{j}"
         if kind != "plain" and j == 0:
             keys = ["G1", "G2", "G3"]
+            if kind == "grouped" and rng.random() < 0.12:
+                keys = ["-----"] if rng.random() < 0.5 else ["-----", "G1", "G2"]  # the library's divider value
             if kind == "grouped":
                 vals = sorted(rng.choice(keys) for _ in range(nrows))
             elif kind == "broken2":
@@ -119,14 +121,24 @@ def gen_frame(rng, t, ncols: int, kind: str) -> dict:
                 vals.append(f"S{cur}")
             cols.append([name, "str", vals])
         else:
-            typ = rng.choice(["str", "str", "int", "float"])
+            typ = rng.choice(["str", "str", "str", "int", "float", "bool"])
             if typ == "str":
                 pool = TEXTS if t["convert"] else TEXTS[:6]
                 vals = [rng.choice(pool) if rng.random() > 0.05 else None for _ in range(nrows)]
+                if rng.random() < 0.1:
+                    vals = [rng.choice(["-----", "1", "1.0", "True", "0", "None", " ", "NA"]) for _ in range(nrows)]
             elif typ == "int":
                 vals = [rng.randrange(-5, 1000) for _ in range(nrows)]
+                if rng.random() < 0.3:
+                    vals = [rng.choice([0, 1, -1, 2, 10 ** 12]) for _ in range(nrows)]
+            elif typ == "bool":
+                vals = [rng.choice([True, False, None]) for _ in range(nrows)]
             else:
                 vals = [round(rng.uniform(-10, 100), 2) for _ in range(nrows)]
+                if rng.random() < 0.4:
+                    # values that are EQUAL to ints/bools but are not them, and the odd ones
+                    vals = [rng.choice([0.0, 1.0, -0.0, 2.0, 1e-12, 1e15, float("inf"), float("nan"), 0.1 + 0.2])
+                            for _ in range(nrows)]
             cols.append([name, typ, vals])
     return {"cols": cols}
 
@@ -495,7 +507,7 @@ def _uses_colour(recipe) -> bool:
 # building
 # --------------------------------------------------------------------------
 
-_PL_TYPES = {"str": "Utf8", "int": "Int64", "float": "Float64"}
+_PL_TYPES = {"str": "Utf8", "int": "Int64", "float": "Float64", "bool": "Boolean"}
 
 
 def build_frame(spec: dict):
@@ -509,19 +521,25 @@ def build_frame(spec: dict):
     return pl.DataFrame(data, schema=schema)
 
 
+def _norm_cell(x):
+    # floats by repr: NaN compares unequal to itself, -0.0 equal to 0.0
+    return ("f", repr(x)) if isinstance(x, float) else x
+
+
 def frame_snapshot(df) -> dict:
     return {
         "columns": list(df.columns),
         "dtypes": [str(d) for d in df.dtypes],
-        "data": df.to_dict(as_series=False),
+        "data": {k: [_norm_cell(x) for x in v] for k, v in df.to_dict(as_series=False).items()},
     }
 
 
 def expected_frame_snapshot(spec: dict) -> dict:
     return {
         "columns": [c[0] for c in spec["cols"]],
-        "dtypes": [{"str": "String", "int": "Int64", "float": "Float64"}[c[1]] for c in spec["cols"]],
-        "data": {c[0]: list(c[2]) for c in spec["cols"]},
+        "dtypes": [{"str": "String", "int": "Int64", "float": "Float64", "bool": "Boolean"}[c[1]] for c in spec["cols"]],
+        "data": {c[0]: [_norm_cell(float(x)) if c[1] == "float" and x is not None else _norm_cell(x) for x in c[2]]
+                 for c in spec["cols"]},
     }
 
 
